@@ -3,6 +3,7 @@ from vf import known  # noqa: F401
 from vf.spec import Cond, result, untraced, retraced, shard_of, thorough, concrete_int, pick  # noqa: F401
 
 from py_gql import build_schema
+from py_gql.sdl import extend_schema
 from py_gql.exc import SchemaError, SDLError, GraphQLSyntaxError
 from py_gql.schema import ScalarType
 from harness import sdlgen as S
@@ -187,6 +188,64 @@ def _sdl_invalid(i: int, ignore: bool) -> bool:
     return result(ok, True)
 
 
+# ---------------------------------------------------------------- duplicates as a product: member kind x where the two occurrences are written x route
+# (kind, base document with a slot %s for members of the base definition, extension block with a slot, the duplicated member, a harmless other member)
+DUP_KINDS = (
+    ("object-field", "type Query { a: Int %s } ", "extend type Query { %s } ", "d: Int", "o: Int"),
+    ("interface-field", "interface I { a: Int %s } type Query implements I { a: Int d: Int a2: Int } ", "extend interface I { %s } ", "d: Int", "a2: Int"),
+    ("input-field", "type Query { a(i: In): Int } input In { f: Int %s } ", "extend input In { %s } ", "d: Int", "o: Int"),
+    ("enum-value", "type Query { a: E } enum E { X %s } ", "extend enum E { %s } ", "D", "O"),
+    ("union-member", "type Query { a: U } type A { a: Int } type D { a: Int } type O { a: Int } union U = A %s ", "extend union U = %s ", "| D", "| O"),
+    ("interface-implementation", "interface I { a: Int } interface J { a: Int } interface K { a: Int } type Query implements I %s { a: Int } ", "extend type Query implements %s ", "& J", "& K"),
+)
+# where the duplicated member is written twice
+DUP_PLACES = ("base+base", "base+extension", "two extension blocks", "one extension block twice", "extension + later extension with another member in between")
+
+
+def dup_document(kind, place):
+    _, base, ext, dup, other = DUP_KINDS[kind]
+    strip = (lambda m: m.lstrip("|& ")) if kind >= 4 else (lambda m: m)
+    join = {4: " | ", 5: " & "}.get(kind, " ")
+    if place == 0:
+        return base % (dup + " " + dup), ""
+    if place == 1:
+        return base % dup, ext % strip(dup)
+    if place == 2:
+        return base % "", ext % strip(dup) + ext % strip(dup)
+    if place == 3:
+        return base % "", ext % (strip(dup) + join + strip(dup))
+    return base % "", ext % strip(dup) + ext % strip(other) + ext % strip(dup)
+
+
+def _sdl_duplicates(kind: int, place: int, route: int) -> bool:
+    """
+    pre: 0 <= kind < len(DUP_KINDS) and 0 <= place < len(DUP_PLACES) and 0 <= route <= 2
+    post: _
+    """
+    K, P, R = concrete_int(kind, 0, len(DUP_KINDS) - 1), concrete_int(place, 0, len(DUP_PLACES) - 1), concrete_int(route, 0, 2)
+    with untraced():
+        base, exts = dup_document(K, P)
+        if R >= 1 and not exts:
+            return result(True, False)
+        try:
+            if R == 0:
+                build_schema(base + exts).validate()
+            elif R == 1:
+                extend_schema(build_schema(base), exts).validate()              # the base may itself be invalid (place 0 is excluded above)
+            else:
+                extend_schema(build_schema(base), exts, strict=False).validate()
+            outcome = "accepted"
+        except (SDLError, SchemaError):
+            outcome = "rejected"
+        # any other exception propagates: 'never with an unrelated exception'
+        # control: the same document with the duplicate replaced by another member is accepted
+        _, b, e, dup, other = DUP_KINDS[K]
+        if P == 2:
+            strip = (lambda m: m.lstrip("|& "))
+            build_schema(b % "" + e % strip(dup) + e % strip(other)).validate()
+    return result(outcome == "rejected", True)
+
+
 def _sdl_text(sdl: str) -> bool:
     """concrete named cases (not a solver result): the document builds and validates"""
     schema = build_schema(sdl)
@@ -301,6 +360,13 @@ def _sdl_two_step(target: int, mode: int, moved: int, d2order: int, strict: bool
 
 
 CONDITIONS = [
+    Cond(
+        name="sdl_duplicates", fn=_sdl_duplicates, quick=60, thorough=60,
+        bound="a member declared twice, as a product: 6 member kinds (object / interface / input field, enum value, union member, implemented interface) x 5 placements of the two occurrences (both in the "
+              "definition, definition + extension, two extension blocks, twice in one extension block, two extension blocks with another one in between) x 3 routes (one document, build_schema + extend_schema "
+              "strict / not strict): rejected with SDLError / SchemaError while building or validating, never accepted, never another exception; control: two extension blocks adding DIFFERENT members are accepted",
+        symbolic={"kind,place,route": "choice"}, witness={"kind": 3, "place": 2, "route": 0},
+    ),
     Cond(
         name="sdl_two_step", fn=_sdl_two_step, quick=90, thorough=300, per_path=60, shards_quick=16, shards_thorough=16,
         bound="the generator's declarations delivered in two steps - build_schema(first document) then extend_schema(schema, second document): which definitions come later (none, a type only reachable as an implementation, an "
